@@ -225,10 +225,11 @@ pub fn generate(rng: &mut Rng, tier: Tier) -> Scenario {
                 ops.push(Op::Feed { n: 0, x, f });
                 fed += 1;
             }
-            if rng.chance(0.02) {
+            // reset and Debug cost O(window): bounded work per run for huge windows
+            if rng.chance(if sp > 2000 { 0.02f64.min(4.0 / hlen.max(1) as f64) } else { 0.02 }) {
                 ops.push(Op::Reset { n: 0 });
             }
-            if rng.chance(0.01) {
+            if rng.chance(if sp > 2000 { 0.01f64.min(2.0 / hlen.max(1) as f64) } else { 0.01 }) {
                 ops.push(Op::Format { n: 0 });
             }
         }
